@@ -18,6 +18,32 @@ HERE = __file__
 NSRC = [0]
 
 
+BLOCKER_FRAMES = {}
+BLOCKER_EVT = [None]
+
+
+def blocker(tid):
+    BLOCKER_FRAMES[tid] = sys._getframe()
+    BLOCKER_EVT[0].wait(60)
+
+
+async def tleaf(tid):
+    # several sibling tasks run this very function, so their tasks (and their worker threads) have equal names
+    await trio.to_thread.run_sync(blocker, tid)
+
+
+def is_thread_leaf(spec):
+    return spec.get("block") == "thread" and not spec["nurseries"]
+
+
+def count_thread_leaves(spec):
+    n = 1 if is_thread_leaf(spec) else 0
+    for nz in spec["nurseries"]:
+        for ch in nz["children"]:
+            n += count_thread_leaves(ch)
+    return n
+
+
 def render_task(spec, funcs, blocklines):
     """spec: {"id", "nurseries": [{"children": [spec...], "via": ...}...], "block": "body"|"aexit", "end": shape}
     Returns the name of the rendered coroutine function (stored in funcs)."""
@@ -25,7 +51,8 @@ def render_task(spec, funcs, blocklines):
     name = "task_%d" % tid
     for nz in spec["nurseries"]:
         for ch in nz["children"]:
-            render_task(ch, funcs, blocklines)
+            if not is_thread_leaf(ch):
+                render_task(ch, funcs, blocklines)
     lines = []
 
     def emit(ind, s):
@@ -50,7 +77,10 @@ def render_task(spec, funcs, blocklines):
             last_with_line = emit(ind, "async with trio.open_nursery() as n%d:" % i)
         ind += 1
         for ch in nz["children"]:
-            emit(ind, "n%d.start_soon(FUNCS['task_%d'])" % (i, ch["id"]))
+            if is_thread_leaf(ch):
+                emit(ind, "n%d.start_soon(FUNCS['tleaf'], %d)" % (i, ch["id"]))
+            else:
+                emit(ind, "n%d.start_soon(FUNCS['task_%d'])" % (i, ch["id"]))
     end = spec.get("end", "plain")
     if end == "plain":
         emit(ind, "x = 1")
@@ -149,6 +179,13 @@ def compare(task, stack, path, bad, info, funcs, blocklines):
     info["tasks"] += 1
     # where is the task blocked?  (only for generated tasks)
     name = task.name.rsplit(".", 1)[-1]
+    if name == "tleaf":
+        tid = task.coro.cr_frame.f_locals.get("tid")
+        info["thread_leaves"] = info.get("thread_leaves", 0) + 1
+        theirs = [f.pyframe for f in stack.frames if f.pyframe.f_code is blocker.__code__]
+        if theirs != [BLOCKER_FRAMES.get(tid)]:
+            bad.append({"kind": "thread_leaf_shows_another_threads_frames", "path": path, "tid": tid,
+                        "got_tids": [f.f_locals.get("tid") for f in theirs]})
     if name in funcs and name.startswith("task_"):
         tid = int(name[5:])
         kind, line = blocklines[tid]
@@ -185,12 +222,26 @@ def run_tree(req):
     spec = req["spec"]
     funcs = {}
     blocklines = {}
+    funcs["tleaf"] = tleaf
+    BLOCKER_FRAMES.clear()
+    BLOCKER_EVT[0] = threading.Event()
+    want_threads = count_thread_leaves(spec)
+    if is_thread_leaf(spec):
+        spec = dict(spec, block="body")
+        want_threads = 0
     root_name = render_task(spec, funcs, blocklines)
     out = {}
 
     async def main():
         async with trio.open_nursery() as n:
             n.start_soon(funcs[root_name])
+            await trio.testing.wait_all_tasks_blocked()
+            for _ in range(4000):
+                if len(BLOCKER_FRAMES) >= want_threads:
+                    break
+                await trio.sleep(0.005)
+            else:
+                out["harness"] = "worker threads did not start"
             await trio.testing.wait_all_tasks_blocked()
             with warnings.catch_warnings(record=True) as w:
                 warnings.simplefilter("always")
@@ -218,9 +269,15 @@ def run_tree(req):
             out["bad"] = bad
             out["info"] = info
             out["warnings"] = [str(x.message)[:200] for x in w]
+            BLOCKER_EVT[0].set()
             n.cancel_scope.cancel()
 
-    trio.run(main)
+    try:
+        trio.run(main)
+    finally:
+        BLOCKER_EVT[0].set()
+    if "harness" in out:
+        return {"harness_error": out["harness"]}
     obs = []
     if "raised" in out:
         obs.append({"kind": "extract_raised", "exc": out["raised"]})
